@@ -33,7 +33,7 @@ struct OpSpec { const char* name; unsigned weight; const char* args; };
 // a = alternative spelling (operator form), e = keep flag, f = self flag, t = stride, p = capacity
 const OpSpec VECTOR_OPS[] = {
     { "push_back", 14, "v" }, { "pop_back", 5, "" }, { "insert", 10, "iv" }, { "insert_n", 6, "inv" }, { "insert_range", 6, "iV" },
-    { "erase", 8, "i" }, { "erase_range", 5, "in" }, { "assign_range", 3, "V" }, { "resize", 6, "nv" }, { "resize_default", 3, "n" },
+    { "erase", 8, "i" }, { "erase_range", 5, "in" }, { "assign_range", 3, "V" }, { "resize", 6, "nv" }, { "resize_alias", 3, "in" }, { "resize_default", 3, "n" },
     { "reserve", 4, "n" }, { "clear", 2, "" }, { "swap", 3, "" }, { "assign_from_b", 3, "" }, { "assign_to_b", 3, "" }, { "self_assign", 1, "" },
     { "copy_ctor", 3, "pe" }, { "ctor_fill", 2, "nv" }, { "ctor_range", 2, "V" }, { "set", 4, "iv" }, { "at", 3, "i" }, { "iterate", 2, "" },
     { "compare", 2, "" }, { "push_back_alias", 2, "j" }, { "insert_alias", 2, "ij" }, { 0, 0, 0 } };
@@ -57,7 +57,7 @@ const OpSpec STRING_OPS[] = {
     { "append_fill", 4, "nc" }, { "push_back", 8, "ca" }, { "append_narrow", 2, "s" }, { "append_narrow_n", 1, "sn" },
     { "insert_str", 5, "is" }, { "insert_ptr", 3, "is" }, { "insert_ptr_n", 2, "ism" }, { "insert_sub", 2, "isjm" }, { "insert_self", 2, "i" }, { "insert_fill", 3, "imc" },
     { "insert_it_char", 3, "ic" }, { "insert_it_fill", 2, "imc" }, { "insert_it_range", 2, "is" },
-    { "erase", 7, "in" }, { "erase_npos", 2, "i" }, { "erase_all", 1, "" }, { "erase_it", 3, "i" }, { "erase_it_range", 3, "in" }, { "clear", 2, "" },
+    { "erase", 7, "in" }, { "erase_over", 2, "in" }, { "erase_npos", 2, "i" }, { "erase_all", 1, "" }, { "erase_it", 3, "i" }, { "erase_it_range", 3, "in" }, { "clear", 2, "" },
     { "resize", 6, "nc" }, { "resize_default", 2, "n" }, { "reserve", 3, "n" }, { "swap", 3, "" }, { "assign_to_b", 2, "" }, { "set_char", 3, "ica" },
     { "copy_ctor", 2, "" }, { "clone", 1, "" }, { "sub_ctor", 2, "in" }, { "sub_ctor_npos", 1, "i" }, { "ctor_fill", 1, "nc" }, { "ctor_ptr", 1, "s" }, { "ctor_ptr_n", 1, "sn" }, { "ctor_narrow", 1, "s" },
     { "substr", 3, "in" }, { "substr_npos", 2, "i" }, { "substr_self", 2, "in" },
